@@ -166,6 +166,20 @@ pub fn run(ctx: &Ctx, rep: &mut Report) {
         let leaves = 4 + r.usize(12);
         let bias = [0, 5, 20][r.usize(3)];
         let e = gen_tree(&mut r, leaves, &mut |r| if r.below(100) < bias { leaf(3 + r.below(3)) } else { leaf(r.below(3)) });
+        // one random tree in eight carries the deprecated implicit-print action node somewhere: it is an
+        // action like any other (nothing is added), and prints the path
+        let e = if i % 8 == 5 {
+            #[allow(deprecated)]
+            let dp = act(Action::DefaultPrint);
+            match r.below(4) {
+                0 => and(e, dp),
+                1 => or(dp, e),
+                2 => list(not(dp), e),
+                _ => and(t(Test::False), or(e, dp)),
+            }
+        } else {
+            e
+        };
         // a third of the random trees carry explicit grouping nodes (hand-built trees only)
         let e = if i % 3 == 0 { with_groups(&e, &mut r, 3) } else { e };
         check(&e, &format!("random:{}", i), rep, false);
